@@ -1,11 +1,14 @@
 """PRED — C01, Edgebreaker attribute layer: the mesh prediction schemes (parallelogram, constrained
-multi-parallelogram, tex coords portable) are lossless for every policy; merged into C01 by the registry owner."""
+multi-parallelogram, tex coords portable, geometric normal) are lossless for every policy; merged into C01 by the registry owner."""
 import os, re
 import vcheck as V
 LEVEL = "proof"
 PROP_FILE = "Properties_PRED.v"
 RULE = ("cases = the real header templates MeshPredictionScheme{Parallelogram,ConstrainedMultiParallelogram,TexCoordsPortable}"
-        "{Encoder,Decoder}<int32_t, PredictionSchemeWrap{En,De}codingTransform<int32_t>, MeshPredictionSchemeData<CornerTable>> on corner "
+        "{Encoder,Decoder}<int32_t, PredictionSchemeWrap{En,De}codingTransform<int32_t>, MeshPredictionSchemeData<CornerTable>> and "
+        "MeshPredictionSchemeGeometricNormal{Encoder,Decoder}<int32_t, PredictionSchemeNormalOctahedronCanonicalized{En,De}codingTransform, …> "
+        "(canonical octahedral coordinates with 2..30 bits; positions random small/large/huge, curtain meshes whose predicted normal has z == 0 "
+        "exactly, planar, and degenerate faces with the (+center,0,0) fallback; flip bits read off the bytes) on corner "
         "tables built by CornerTable::Create from generated triangle lists (grids, wheels, closed surfaces, strips, random/non-manifold "
         "lists, with dropped/flipped/shuffled/rotated faces), data_to_corner/vertex_to_data maps in breadth-first traversal order, in a "
         "random vertex order with a random corner of the vertex, and arbitrary in-bounds maps; int32 rows of 1..4 components (2 + int32 "
